@@ -441,6 +441,8 @@ def afterGate (O : Oracle σ) (w : World σ) (p : Pair)
 /-- `Keeper.ConvertCoin` -/
 def convertCoin (env : Env) (O : Oracle σ) (w : World σ) (m : MsgConvertCoin) : R (World σ × Resp) :=
   ensure (validErc20Denom m.denom.s || validIBCDenom m.denom.s) (.invalid "denom") >>= fun _ =>
+  -- a denomination of hex-address form would be routed to the address index by `GetTokenPairID`
+  ensure (!isHexAddress m.denom.s) (.invalid "denomination has the form of a hex address") >>= fun _ =>
   ensure (decide (0 < m.amount)) (.invalid "amount") >>= fun _ =>
   m.sender.decode >>= fun sender =>
   m.receiver.decode >>= fun receiver =>
